@@ -25,7 +25,7 @@ Deliver, under /tmp/seed/{pid}-out/ :
 Environment facts (sandbox is offline):
   - Every shell call needs: export GOPROXY=off GOSUMDB=off GOTOOLCHAIN=local
   - Go modules in the tree: go/appencryption (has a go.work: do NOT set GOFLAGS=-mod=mod there), go/appencryption/integrationtest, go/securememory (use GOFLAGS=-mod=mod), server/go (use GOFLAGS=-mod=mod), tests/cross-language/go.
-  - IMPORTANT: go/appencryption and server/go build against module-cache copies of their sibling modules (securememory@v0.1.6, appencryption@v0.7.1), not the sibling directories. So a change in go/securememory is only seen by tests in go/securememory; a change in go/appencryption is only seen by tests in go/appencryption (and its integrationtest via go.work). Keep your change and your demo within one module.
+  - IMPORTANT: server/go builds against module-cache copies of its sibling modules (appencryption@v0.7.1, securememory@v0.1.6), not the sibling directories: a change in go/appencryption or go/securememory is NOT seen by tests in server/go. go/appencryption (through its go.work) builds against the sibling directory go/securememory, so a change in go/securememory is seen by the tests of go/securememory AND of go/appencryption: run both suites if you touch go/securememory. Keep your change and your demo within one module.
   - Skip the integrationtest module entirely (it needs docker and its traces package takes 20 minutes). Run the existing tests of the module(s) you touched with: (cd {wt}/<module> && go test -vet=off -count=1 -timeout 20m ./...)  — some integration tests that need docker/network are skipped or fail identically on the unchanged tree; compare against the unchanged tree if something fails (do NOT use git stash - it is shared between worktrees; use `git diff > x.diff; git apply -R x.diff; ...; git apply x.diff`) to make sure your change is not the cause.
   - Do not commit anything. Leave the worktree with your change applied (uncommitted) plus the demo file in place.
 Keep the change small (a few lines). Prefer subtle semantic changes over deletions of whole features. Finish by printing the contents of notes.md.
